@@ -15,7 +15,7 @@ one() {
   git -C /repo worktree add -q --detach "$wt" HEAD || { echo "$id ERROR worktree"; return; }
   if ! git -C "$wt" apply "$patch" 2>/dev/null; then echo "$id ERROR patch-does-not-apply"; git -C /repo worktree remove --force "$wt"; rm -rf "$wt"; return; fi
   ev=$(mktemp -d /tmp/rgev.XXXXXX)
-  o=$(GOLIBCHECK_EVIDENCE_DIR=$ev /verif/bin/golibcheck -prop $p -repo "$wt" 2>&1); rc=$?
+  o=$(GOLIBCHECK_EVIDENCE_DIR=$ev ${GOLIBCHECK_BIN:-/verif/bin/golibcheck} -prop $p -repo "$wt" 2>&1); rc=$?
   rules=$(echo "$o" | grep -o "^  \(VIOLATION\|UNDECIDED\) rule=[A-Za-z0-9.-]*" | sed 's/^  //; s/ rule=/:/' | sort | uniq -c | awk '{printf "%s(x%s) ", $2, $1}')
   case $id in
     *-r*) want=0;;
